@@ -100,7 +100,7 @@ def check_file(conv_idx, op, table, column, header, sep, strict, passthrough, am
     fails = []
     conv = CONVERTERS[conv_idx]()
     rows = rows_of(table, column, conv_idx, shift)
-    head = ["only"] if header == "narrow" else [" h1", " h 2"] if header == "blank-led" else ["#h1", "h 2"] if header == "hash" else ['h"1', "h 2"] if header != "multiline" else ["\ufeffmulti\nline", 'q"']
+    head = [] if header == "blank" else [""] if header == "one-empty-cell" else ["only"] if header == "narrow" else [" h1", " h 2"] if header == "blank-led" else ["#h1", "h 2"] if header == "hash" else ['h"1', "h 2"] if header != "multiline" else ["\ufeffmulti\nline", 'q"']
     path = os.path.join(tmpdir(), f"{os.getpid()}.tsv")
     with open(path, "w", newline="", encoding="utf-8") as fh:
         w = csv.writer(fh, delimiter=sep)
@@ -285,7 +285,7 @@ def extra_file_cases():
     for table in [(c,) for c in Y] + list(it.product(Y[:4], repeat=2)):
         for op in ("file_compress", "file_expand"):
             for column in (0, 1):
-                for header in (True, False, "blank-led", "narrow"):
+                for header in (True, False, "blank-led", "narrow", "blank", "one-empty-cell"):
                     for sep in ("\t", ","):
                         for strict, passthrough, ambiguous in FLAGS:
                             yield 0, op, list(table), column, header, sep, strict, passthrough, ambiguous, 7
